@@ -2,7 +2,8 @@ import Rare.Base.Proto
 import Rare.Base.F64Str
 import Rare.Model.C03
 import Rare.Model.C03Reduce
-import Rare.Drv.C07Acc
+import Rare.Model.C03Analyze
+import Rare.Drv.Expr
 /-!
 Line-protocol driver for C03 (see `harness/corr/c03.go` and `extra/C03.py`).
 
@@ -80,18 +81,37 @@ inductive TplRes
   | panic
   | unmodelled (n : String)
 
+inductive CompileRes
+  | stage (s : Rare.Expr.Stage)
+  | errors
+  | panic
+  | unmodelled (n : String)
+
+/-- `funclib.NewKeyBuilder().Compile(template)` as far as `AccumulatingGroup` looks at it (shared expression
+model, standard registry, optimiser on). -/
+def compileT (t : Bytes) : CompileRes :=
+  match Rare.Drv.Expr.decodeTemplate t with
+  | none => .panic
+  | some tc =>
+    match Rare.Expr.compile Rare.Drv.Expr.registry true tc with
+    | .error m => if m.startsWith "unmodelled:" then .unmodelled (m.drop 11).toString else .panic
+    | .ok (stages, errs) =>
+      match Rare.Drv.Expr.unmodelledTag errs with
+      | some n => .unmodelled n
+      | none => if errs.isEmpty then .stage (Rare.Expr.buildKey stages) else .errors
+
 def checkTemplates (ts : List Bytes) : TplRes :=
   ts.foldl (fun acc t =>
     match acc with
     | .ok =>
-      match Rare.Drv.C07Acc.compileT true t with
+      match compileT t with
       | .panic => .panic
       | .unmodelled n => .unmodelled n
       | _ => .ok
     | r => r) .ok
 
 def compileOpt (t : Bytes) : Option Rare.Expr.Stage :=
-  match Rare.Drv.C07Acc.compileT true t with
+  match compileT t with
   | .stage st => some st
   | _ => none
 
@@ -117,7 +137,31 @@ def reduceOp (flags : Nat) (initial : Bytes) (sort : Option Bytes) (groups accum
       | .error m => runErr m
       | .ok r => s!"ok {r.exit} {Hex.enc r.csv} {Hex.enc (joinLines ((outText r.out).map squash))}"
 
+/-! ### `analyze` -/
+
+def analyzeOp (flags : Nat) (qs : List Bytes) (nMiss : Nat) (samples : List Bytes) : String :=
+  let a : AnalyzeArgs := { extra := flags % 2 = 1, reverse := flags / 2 % 2 = 1,
+                           quantiles := if flags / 4 % 2 = 1 && !qs.isEmpty then qs else ({} : AnalyzeArgs).quantiles }
+  match parseQuantiles a.quantiles with
+  | .error c => s!"fatal {c}"
+  | .ok quantiles =>
+    let cnt : Counters := ⟨samples.length, samples.length + nMiss, 0⟩
+    match analyzeRun a quantiles samples (C07.analyzeF a.reverse) cnt 0 with
+    | .error _ => "panic"
+    | .ok r => s!"ok {r.exit} {Hex.enc (joinLines r.lines)}"
+
 def handle : List String → String
+  | ["analyze", fl, qs, nm, els] =>
+    match nat? fl, decHexList qs, nat? nm, decHexList els with
+    | some fl, some qs, some nm, some els => analyzeOp fl qs nm els
+    | _, _, _, _ => "bad-args"
+  | ["analyze-spec", els] =>
+    match decHexList els with
+    | some els =>
+      match specMeanText (C03.parsedValues' els) with
+      | some t => s!"ok {Hex.enc t}"
+      | none => "unmodelled no-finite-mean"
+    | none => "bad-args"
   | ["reduce", fl, ini, srt, gs, acs, nm, els] =>
     match nat? fl, Hex.dec ini, (if srt = "-" then some none else (Hex.dec srt).map some), decHexList gs, decHexList acs,
         nat? nm, decHexList els with
